@@ -21,6 +21,14 @@ I1D = "xitorch/_impls/interpolate/interp_1d.py"
 NR = S("nr")
 
 
+def _const_of(r: Rat) -> Optional[int]:
+    if isinstance(r, Rat) and not r.symbols() and r.d == Poly.const(1):
+        k = r.n.t.get((), F(0))
+        if k.denominator == 1:
+            return int(k)
+    return None
+
+
 def _atom_a(idx: Rat) -> Rat:
     return S("a[%s]" % repr(idx).replace(" ", ""))
 
@@ -65,15 +73,16 @@ def _const_int(e: ast.AST) -> Optional[int]:
 
 
 class SplineSysInterp:
-    def __init__(self, fi, source: str):
+    def __init__(self, fi, source: str, nr: Optional[Rat] = None):
         self.fi = fi
         self.source = source
+        self.NR = nr if nr is not None else NR
         self.env: Dict[str, Any] = {}
         self.mats: Dict[str, Mat] = {}
         self.solve: Optional[Tuple[str, str]] = None
         self.ret_is_solve = False
         xp = fi.params()[0]
-        self.env[xp] = Seq(lambda i: S("X[%s]" % repr(i).replace(" ", "")), NR)
+        self.env[xp] = Seq(lambda i: S("X[%s]" % repr(i).replace(" ", "")), self.NR)
         self.xp = xp
         self.bcp = fi.params()[1]
 
@@ -154,7 +163,7 @@ class SplineSysInterp:
                 return base.fn(C(k)) if k >= 0 else base.fn(base.length + C(k))
             if isinstance(base, Opaque) and ast.unparse(e.value).endswith(".shape"):
                 if _const_int(e.slice) == -1:
-                    return NR
+                    return self.NR
                 return Opaque("shape part")
             if isinstance(base, Opaque):
                 return Opaque("subscript of opaque")
@@ -222,11 +231,11 @@ class SplineSysInterp:
                     else:
                         self.env[tg.id] = v
                         # recognise the inverse interval widths: 1 / (x[i+1] - x[i])
-                        if isinstance(v, Seq) and v.length.eq(NR - C(1)):
+                        if isinstance(v, Seq) and v.length.eq(self.NR - C(1)):
                             i = S("i")
                             try:
                                 if v.fn(i).eq(C(1) / (S("X[1+i]") - S("X[i]"))):
-                                    self.env[tg.id] = Seq(lambda j: _atom_a(j), NR - C(1), is_base=True)
+                                    self.env[tg.id] = Seq(lambda j: _atom_a(j), self.NR - C(1), is_base=True)
                                     self.base_name = tg.id
                             except ZeroDivisionError:
                                 pass
@@ -272,7 +281,7 @@ class SplineSysInterp:
             v = self.ev(value)
             if not isinstance(v, Seq):
                 raise Uninterpretable("diagonal filled with a non-sequence")
-            want = NR - C(abs(dv.offset))
+            want = self.NR - C(abs(dv.offset))
             if not v.length.eq(want):
                 raise Uninterpretable("diagonal %d has %r entries but is filled with a sequence of %r" % (dv.offset, want, v.length))
             m = self.mats[dv.mat_name]
@@ -302,15 +311,18 @@ class SplineSysInterp:
         raise Uninterpretable("store %s" % norm_stmt(stmt))
 
     # ---------------------------------------------------------------- rows
-    @staticmethod
-    def colkey(c: int):
+    def colkey(self, c: int):
+        n = _const_of(self.NR)
+        if n is not None:
+            return c if c >= 0 else n + c
         return c if c >= 0 else "n-%d" % (-c)
 
     def zero_sub(self, v: Rat) -> Rat:
         """a[-1] = a[nr-1] = 0: the inverse widths were zero-extended by one element at both ends"""
         for sym in list(v.symbols()):
             idx = _atom_index(sym)
-            if idx in ("-1", "-1+nr"):
+            n = _const_of(self.NR)
+            if idx in ("-1", "-1+nr") or (n is not None and idx == str(n - 1)):
                 v = v.subs(sym, C(0))
         return v
 
@@ -330,7 +342,7 @@ class SplineSysInterp:
         else:
             for o, seq in mat.bands.items():
                 if o <= 0:
-                    out[self.colkey(-1 + o)] = self.zero_sub(seq.fn(NR - C(1) + C(o)) if o < 0 else seq.fn(NR - C(1)))
+                    out[self.colkey(-1 + o)] = self.zero_sub(seq.fn(self.NR - C(1) + C(o)) if o < 0 else seq.fn(self.NR - C(1)))
             rsel = -1
         for (r, col, op, v, stmt) in mat.rowops:
             if r != rsel:
@@ -424,36 +436,51 @@ def _equation_to_row(eq: Rat, keys) -> Dict[Tuple[str, Any], Rat]:
     return row
 
 
-def expected_rows(hd: HermiteDerivs, bc: str):
+def expected_rows(hd: HermiteDerivs, bc: str, nr: Optional[Rat] = None):
     """returns {"interior": row, "first": [accepted rows], "last": [accepted rows]} (each row a dict)"""
     a = _atom_a
     r = S("r")
     out = {}
+    N_ = nr if nr is not None else NR
+    nconst = _const_of(N_)
+
+    def key(k):
+        """column key: k from the end (k = 1 -> last column)"""
+        return (nconst - k) if nconst is not None else "n-%d" % k
+    n1, n2, n3 = key(1), key(2), key(3)
     # interior knot r: S''_{r-1}(1) == S''_r(0)
     eq = hd.s2(1, a(r - C(1)), _Y("r-1"), _Y("r"), _K("r-1"), _K("r")) - hd.s2(0, a(r), _Y("r"), _Y("r+1"), _K("r"), _K("r+1"))
     out["interior"] = _equation_to_row(eq, ["r-1", "r", "r+1"])
-    a0, a1, al, al2 = a(C(0)), a(C(1)), a(NR - C(2)), a(NR - C(3))
+    a0, a1, al, al2 = a(C(0)), a(C(1)), a(N_ - C(2)), a(N_ - C(3))
     if bc == "natural":
         out["first"] = [_equation_to_row(hd.s2(0, a0, _Y(0), _Y(1), _K(0), _K(1)), [0, 1])]
-        out["last"] = [_equation_to_row(hd.s2(1, al, _Y("n-2"), _Y("n-1"), _K("n-2"), _K("n-1")), ["n-2", "n-1"])]
+        out["last"] = [_equation_to_row(hd.s2(1, al, _Y(n2), _Y(n1), _K(n2), _K(n1)), [n2, n1])]
     elif bc == "clamped":
         out["first"] = [{("k", 0): C(1)}]
-        out["last"] = [{("k", "n-1"): C(1)}]
+        out["last"] = [{("k", n1): C(1)}]
     elif bc == "not-a-knot":
         e0 = hd.s3(a0, _Y(0), _Y(1), _K(0), _K(1)) - hd.s3(a1, _Y(1), _Y(2), _K(1), _K(2))
-        e1 = hd.s3(al2, _Y("n-3"), _Y("n-2"), _K("n-3"), _K("n-2")) - hd.s3(al, _Y("n-2"), _Y("n-1"), _K("n-2"), _K("n-1"))
-        out["first"] = [_equation_to_row(e0, [0, 1, 2])]
-        out["last"] = [_equation_to_row(e1, ["n-3", "n-2", "n-1"])]
+        e1 = hd.s3(al2, _Y(n3), _Y(n2), _K(n3), _K(n2)) - hd.s3(al, _Y(n2), _Y(n1), _K(n2), _K(n1))
+        out["first"] = [_equation_to_row(e0, sorted({0, 1, 2}))]
+        out["last"] = [_equation_to_row(e1, _uniq([n3, n2, n1]))]
     elif bc == "periodic":
         # wrap-around knot: S''_{last}(1) == S''_0(0) with the end knot identified with the first one
-        ef = hd.s2(1, al, _Y("n-2"), _Y(0), _K("n-2"), _K(0)) - hd.s2(0, a0, _Y(0), _Y(1), _K(0), _K(1))
-        el = hd.s2(1, al, _Y("n-2"), _Y("n-1"), _K("n-2"), _K("n-1")) - hd.s2(0, a0, _Y("n-1"), _Y(1), _K("n-1"), _K(1))
-        tie = {("k", 0): C(1), ("k", "n-1"): C(-1)}
-        out["first"] = [_equation_to_row(ef, ["n-2", 0, 1]), tie]
-        out["last"] = [_equation_to_row(el, ["n-2", "n-1", 1]), tie]
+        ef = hd.s2(1, al, _Y(n2), _Y(0), _K(n2), _K(0)) - hd.s2(0, a0, _Y(0), _Y(1), _K(0), _K(1))
+        el = hd.s2(1, al, _Y(n2), _Y(n1), _K(n2), _K(n1)) - hd.s2(0, a0, _Y(n1), _Y(1), _K(n1), _K(1))
+        tie = {("k", 0): C(1), ("k", n1): C(-1)}
+        out["first"] = [_equation_to_row(ef, _uniq([n2, 0, 1])), tie]
+        out["last"] = [_equation_to_row(el, _uniq([n2, n1, 1])), tie]
         out["need_wrap"] = True
     else:
         raise Uninterpretable("no specification for boundary condition %r" % bc)
+    return out
+
+
+def _uniq(keys):
+    out = []
+    for k in keys:
+        if k not in out:
+            out.append(k)
     return out
 
 
@@ -537,5 +564,33 @@ def check_slope_system(model: Model, B, prop: str, rule: str, hermite: Callable[
             # at least one of the two rows must be the wrap-around C2 condition (two ties would leave the system singular)
             if proportional(rows["first"], exp["first"][1]) and proportional(rows["last"], exp["last"][1]):
                 B.bad(fi, fi.node, "bc=periodic: both boundary rows are the tie k_0 = k_{n-1}; the wrap-around C2 condition is missing")
-    B.note("boundary conditions interpreted: %s" % bcs)
+    # small grids, where the named boundary columns coincide (column -2 is column 1 for nr = 3, ...): the same comparison with a concrete size;
+    # point updates are applied in program order on the concrete columns, so `=` versus `+=` on a colliding entry is visible
+    small = []
+    for n in (3, 4, 5):
+        for bc in bcs:
+            it = SplineSysInterp(fi, fi.module.source, nr=C(n))
+            try:
+                it.run(fi.node.body, bc)
+                if it.solve is None:
+                    raise Uninterpretable("no solve")
+                L, R = it.mats[it.solve[0]], it.mats[it.solve[1]]
+                exp = expected_rows(hd, bc, nr=C(n))
+                ok = True
+                for which in ("first", "last"):
+                    lrow, rrow = it.row(L, which), it.row(R, which)
+                    got = {**{("k", k): v for k, v in lrow.items()}, **{("y", k): v for k, v in rrow.items()}}
+                    if not any(proportional(got, e) for e in exp[which]):
+                        ok = False
+                        ops = [op for m in (L, R) for op in m.rowops if op[0] == (0 if which == "first" else -1)]
+                        B.bad(fi, ops[0][4] if ops else fi.node, "bc=%s, nr=%d: the %s row of the slope system is not the %s condition on a grid this small (named boundary columns "
+                              "coincide and the point updates interact): found %s, expected (up to scaling) %s" % (bc, n, which, bc, fmt_row(got), fmt_row(exp[which][0])),
+                              what="bc=%s nr=%d %s row" % (bc, n, which))
+                if ok:
+                    small.append((n, bc))
+            except Uninterpretable as e:
+                raise AnalysisError("%s: cannot interpret _get_spline_mat_inv for bc_type=%r at nr=%d: %s" % (rule, bc, n, e))
+    if len(small) == 3 * len(bcs):
+        B.ok(fi.fq, "boundary rows also hold for the small grids nr = 3, 4, 5 (colliding boundary columns) for every boundary condition")
+    B.note("boundary conditions interpreted: %s; sizes: symbolic nr (>= 6) and nr = 3, 4, 5" % bcs)
     return bcs
